@@ -231,3 +231,16 @@ Theorem C11_code_registers_rotated_before_dropping_unrotated : forall r : GenOrd
   In r GenOrderCheck.c11_rules -> GenOrderCheck.rule_holds r.
 Proof. exact GenOrderProofs.co_C11_rules_hold. Qed.
 Print Assumptions C11_code_registers_rotated_before_dropping_unrotated.
+
+(* ---- the shared tables are touched only under their locks, from the source: for the segstore table, the
+   unrotated-segment table, the rotated metadata's reverse index and per-table lists and the persistent-query
+   results, EVERY function of the writer / metadata / query packages whose skeleton (regenerated from /repo on every
+   run by gotrans in guardtrace mode: mutex operations and every read or write of the variable, callees inlined)
+   touches the variable has, on every path, locked the variable's mutex more often than unlocked it at that point —
+   except the listed functions that are entered with the lock held or run at initialisation (rules C11.* of
+   GenGuardCheck.gb_rules).  A removed Lock()/RLock() around such an access breaks this theorem. ---- *)
+From SigP Require GenGuardCheck GenGuardProofs.
+Theorem C11_code_shared_tables_touched_only_under_their_locks : forall r : GenGuardCheck.grule,
+  In r GenGuardCheck.c11_grules -> GenGuardCheck.grule_holds r.
+Proof. exact GenGuardProofs.gb_C11_rules_hold. Qed.
+Print Assumptions C11_code_shared_tables_touched_only_under_their_locks.
